@@ -7,7 +7,7 @@ namespace Qfx.Drv
 open Qfx Qfx.Store Qfx.Spec.Store
 
 /-- parse `r ok c S T e y m N hex… [f …]` -/
-def parseObs : List String → Option (Obs × List String)
+def parseStoreObs : List String → Option (Obs × List String)
   | "r" :: r :: "c" :: s :: t :: "e" :: e :: "m" :: n :: rest => do
       let ok ← if r = "ok" then some true else if r = "err" then some false else none
       let s ← s.toInt?
@@ -30,7 +30,7 @@ abbrev StMon := List (String × MonSess)
 
 def storeMonStep (w : StMon) (ws : List String) : StMon × String :=
   let (opw, obsw) := splitObs ws
-  match parseObs obsw with
+  match parseStoreObs obsw with
   | none => (w, if obsw == ["panic"] then "bad panic" else "bad-op")
   | some (got, _) =>
     match opw with
